@@ -156,7 +156,9 @@ class Runner:
             # so the three next-options are always passed explicitly here)
             o_ = opts or {}
             for el in R.net.origins:
-                el.step(net=R.net, engine=eng, positive_next_queue=bool(o_.get("pn_w")), **R.step_kwargs())
+                # (no option set given: the origin's own default - documented False - is what is exercised)
+                kwq = {"positive_next_queue": bool(o_.get("pn_w"))} if o_ else {}
+                el.step(net=R.net, engine=eng, **kwq, **R.step_kwargs())
             for (_, _, el) in R.net.links:
                 el.step(net=R.net, engine=eng, positive_next_speed=bool(o_.get("pn_v")),
                         positive_next_density=bool(o_.get("pn_rho")), **R.step_kwargs())
@@ -649,6 +651,31 @@ def run_C02(ctx):
                              scalar_shape=shape_, opts=o_)
                 except Exception as ex:
                     disagree(out, net, pv, svi, f"NumPy step ({shape_}, {o_}) raised {ex!r:.200}")
+        # an almost homogeneous platoon: neighbouring segments differ in the 6th digit only, so do their flows - the
+        # density CHANGE of an interior segment is T/(L lanes) (q_{i-1} - q_i), compared as a difference
+        svp = dict(pts[0][1])
+        for l, v in net.links.items():
+            r0, v0 = svp[f"rho.{l}.0"], svp[f"v.{l}.0"]
+            for i in range(v["N"]):
+                svp[f"rho.{l}.{i}"] = r0 * (1 + 3e-6 * ((i * 7) % 5 - 2))
+                svp[f"v.{l}.{i}"] = v0 * (1 + 2e-6 * ((i * 3) % 7 - 3))
+        if not dyn.near_excluded(net, pv, svp):
+            try:
+                gotp = run.numpy_step(svp)
+                out["coverage"]["evaluations"] += 1
+                qp = flows_from_inputs(net, svp)
+                for l, v in net.links.items():
+                    for i in range(1, v["N"]):
+                        exp_d = pv["g.T"] / (pv[f"lp.{l}.L"] * v["lanes"]) * (qp[(l, i - 1)] - qp[(l, i)])
+                        got_d = gotp[f"rho+ {l} {i}"] - svp[f"rho.{l}.{i}"]
+                        if abs(got_d - exp_d) > 1e-6 * abs(exp_d) + 1e-11 * abs(svp[f"rho.{l}.{i}"]) + 1e-300:
+                            fail(out, f"C02:{topo_key(net)}:platoon", net, pv, svp,
+                                 f"NumPy step, almost homogeneous platoon: density of segment {i} of link {l} changes by {got_d!r}; "
+                                 f"inflow minus outflow prescribes {exp_d!r} (vehicles appear or vanish inside the link)",
+                                 observable=f"rho+ {l} {i}")
+                            break
+            except Exception as ex:
+                disagree(out, net, pv, svp, f"NumPy step (platoon) raised {ex!r:.200}")
         for mode, sv in pts:
             try:
                 got = run.numpy_step(sv)
@@ -827,6 +854,44 @@ def run_C04(ctx):
                 fail(out, f"C04:{topo_key(net)}:npraise", net, pv, sv, f"NumPy step raised {ex!r:.300}",
                      reads_seed=run.reads_seed)
                 continue
+            if stree is not None and variant == 0:
+                # "the successor": what the positions are compared with is the METANET next state of that argument
+                spec_v = dyn.eval_all(stree, dyn.env_of(pv, sv))
+                for k in keys:
+                    v_, mag_, _b = spec_v[k]
+                    if math.isfinite(v_) and not tree.close(v_, ref[k], mag_):
+                        fail(out, f"C04:{topo_key(net)}:successor", net, pv, sv,
+                             f"the next state {k} = {ref[k]!r} the positions are compared with is not the METANET successor {v_!r}",
+                             observable=k)
+                        break
+            if stree is not None and variant == 0:
+                # with the positive_init_* options the state argument is max(0, .) of what is passed: the results are the
+                # successors of THAT state, for every element class
+                svn = nets.random_state(net, pv, rng, "negative")
+                o_ = {"pi_rho": True, "pi_v": True, "pi_w": True}
+                svc = clamp_init(clamp_init(clamp_init(svn, "pi_rho"), "pi_v"), "pi_w")
+                if not dyn.near_excluded(net, pv, svc):
+                    spec_c = dyn.eval_all(stree, dyn.env_of(pv, svc))
+                    for who in ("NumPy", "SX", "MX"):
+                        try:
+                            if who == "NumPy":
+                                got_o = run.numpy_step(svn, o_)
+                            else:
+                                Fo, _ = run.function(who, ci % 3, False, o_)
+                                got_o, _p = run.call(Fo, ci % 3, False, svn)
+                        except Exception as ex:
+                            fail(out, f"C04:{topo_key(net)}:init-options-raise", net, pv, svn, f"{who}, positive_init options: raised {ex!r:.300}", opts=o_)
+                            continue
+                        out["coverage"]["evaluations"] += 1
+                        if got_o is None:
+                            continue
+                        for k in keys:
+                            v_, mag_, _b = spec_c[k]
+                            if math.isfinite(v_) and not tree.close(v_, got_o[k], mag_):
+                                fail(out, f"C04:{topo_key(net)}:init-options", net, pv, svn,
+                                     f"{who}, positive_init options on: {k} = {got_o[k]!r}; the successor of the clamped state is {v_!r}",
+                                     opts=o_, observable=k)
+                                break
             lev = {}
             for sym in ("SX", "MX"):
                 # levels outside 0..2 are documented too: <= 0 is level 0, > 1 is level 2
@@ -972,10 +1037,17 @@ def run_C05(ctx):
         for pi, (mode, sv) in enumerate(pts):
             for sym in ("SX", "MX"):
                 for compact in ((0, 1, 2) if not quick else ((ci + pi) % 3,)):
-                    tag = f"{sym} compact={compact}"
+                    # (every other point: with positive_next_queue on - where the next queue is positive anyway the
+                    # clamp changes nothing and the reported flow is still the one in the queue update)
+                    o5 = {"pn_w": True} if (pi + ci) % 2 else None
+                    tag = f"{sym} compact={compact}" + (" positive_next_queue" if o5 else "")
                     try:
-                        F, _ = run.function(sym, compact, True)
+                        F, _ = run.function(sym, compact, True, o5)
                         vals, probs = run.call(F, compact, True, sv)
+                        if o5 and vals is not None and any(vals[f"w+ {o} 0"] <= 0 for o, k_ in net.origins.items() if k_ != "ideal"):
+                            F, _ = run.function(sym, compact, True)
+                            vals, probs = run.call(F, compact, True, sv)
+                            tag = f"{sym} compact={compact}"
                     except Exception as ex:
                         vals, probs = None, [f"raised {ex!r:.300}"]
                     out["coverage"]["evaluations"] += 1
@@ -1407,6 +1479,45 @@ def run_C16(ctx):
                         fail(out, f"C16:{topo_key(net)}:value", net, pv, sv,
                              f"{tag}: {k} = {x!r} with symbolic parameters evaluated at their values, {y!r} with numbers",
                              ptoks=ptoks, sym=sym, compact=compact)
+        # one declared entry that is itself a stack of symbols (legal: any symbolic expression of free symbols)
+        try:
+            import casadi as cs
+            l0 = sorted(net.links)[0]
+            toks3 = [f"lp.{l0}.rho_crit", f"lp.{l0}.a", f"lp.{l0}.v_free"]
+            for sym in ("SX", "MX"):
+                st_ = getattr(cs, sym)
+                sp = {t: st_.sym(pname(t)) for t in toks3}
+                Rk = impl.Real(net, pv, sym_params=sp)
+                eng = impl.CsEngine(sym)
+                Rk.net.step(engine=eng, **Rk.step_kwargs())
+                Fk = eng.to_function(Rk.net, compact=0, more_out=False, parameters={"link_pars": cs.vertcat(*[sp[t] for t in toks3])},
+                                     **Rk.step_kwargs())
+                out["coverage"]["evaluations"] += 1
+                if (Fk.name_in(Fk.n_in() - 1), Fk.size1_in(Fk.n_in() - 1)) != ("link_pars", 3):
+                    fail(out, f"C16:{topo_key(net)}:stacked-entry", net, pv, sv,
+                         f"{sym}: a declared entry that stacks three symbols is not the trailing argument of size 3: last argument "
+                         f"{(Fk.name_in(Fk.n_in() - 1), Fk.size1_in(Fk.n_in() - 1))}", sym=sym)
+                    continue
+                lay = in_layout(net, 0, default_names(net))
+                env = dyn.env_of(pv, sv)
+                args = [cs.DM([env[t] for t in toks]) if toks else cs.DM(0, 1) for _, toks in lay] + [cs.DM([pv[t] for t in toks3])]
+                res = Fk(*args)
+                res = res if isinstance(res, (list, tuple)) else [res]
+                olay = out_layout(net, 0, False, default_names(net))
+                gotk = {}
+                for (n_, toks), r_ in zip(olay, res):
+                    for t_, x_ in zip(toks, np.array(r_, dtype=float).reshape(-1)):
+                        gotk[t_] = float(x_)
+                Fn_, _ = plain.function(sym, 0, False)
+                refk, _p = plain.call(Fn_, 0, False, sv)
+                bad = states_close(gotk, refk, keys) if refk is not None else []
+                if bad:
+                    k, x, y = bad[0]
+                    fail(out, f"C16:{topo_key(net)}:stacked-entry-value", net, pv, sv,
+                         f"{sym}: parameters declared as one stacked entry: {k} = {x!r}, compiled with the numbers {y!r}", sym=sym)
+        except Exception as ex:
+            fail(out, f"C16:{topo_key(net)}:stacked-entry-raise", net, pv, sv,
+                 f"a declared parameter entry that is a stack of three symbols: raised {ex!r:.300}")
         # the turn rates of all links leaving one node declared symbolic and evaluated at EQUAL values (the
         # default 1.0): distinct symbols, equal numbers
         nodes_, edges_ = net.graph()
@@ -1415,15 +1526,17 @@ def run_C16(ctx):
             if len(outs) < 2:
                 continue
             pv2 = dict(pv)
-            for l in outs:
-                pv2[f"lp.{l}.turnrate"] = 1.0
+            almost_one = ci % 2 == 1          # (every other case: un-normalised rates whose sum is 1.0009)
+            for j_, l in enumerate(outs):
+                pv2[f"lp.{l}.turnrate"] = 1.0 if not almost_one else (1.0009 / len(outs)) * (1 + 0.3 * (j_ - (len(outs) - 1) / 2))
             if dyn.near_excluded(net, pv2, sv):
                 continue
             run2 = Runner(net, pv2)
             ptoks = [f"lp.{l}.turnrate" for l in outs]
             for sym in ("SX", "MX"):
                 compact = ci % 3
-                tag = f"{sym} compact={compact} turn rates of the links leaving node {n_} symbolic, all evaluated at 1.0"
+                tag = f"{sym} compact={compact} turn rates of the links leaving node {n_} symbolic, evaluated at " + \
+                      ("1.0 each" if not almost_one else f"{[round(pv2[t], 6) for t in ptoks]} (sum 1.0009)")
                 try:
                     Fn, _ = run2.function(sym, compact, False)
                     ref, _p = run2.call(Fn, compact, False, sv)
@@ -1649,6 +1762,8 @@ def run_C18(ctx):
                     sv[f"vc.{l}.{k}"] = rng.choice(INF)
                 pvc = dict(pv)
                 pvc.setdefault(f"lp.{l}.alpha", 0.1)
+                if (ci + vi) % 4 == 0:
+                    pvc[f"lp.{l}.alpha"] = 0.0          # no tolerance at all: (1 + alpha) v_ctrl is v_ctrl, also for an infinite limit
                 rp, rc = steps(Runner(plain, pvc), svp, backends), steps(Runner(ctl, pvc), sv, backends)
                 # the same pair from a state with negative entries under the init-clamping options
                 svn = nets.random_state(net, pv, rng, "negative")
@@ -1679,7 +1794,11 @@ def run_C18(ctx):
                 if vslset:
                     svf = dict(sv)
                     for k in range(len(vslset)):
-                        svf[f"vc.{l}.{k}"] = rng.choice([0.0, 10.0, 40.0, 90.0]) if (k > 0 or len(vslset) == 1 or vi < 3) else math.inf
+                        seg_ = sorted(vslset)[k]
+                        veq_ = pvc[f"lp.{l}.v_free"] * math.exp(-1 / pvc[f"lp.{l}.a"] * (max(sv[f"rho.{l}.{seg_}"], 0.0) / pvc[f"lp.{l}.rho_crit"]) ** pvc[f"lp.{l}.a"])
+                        # (also limits a little below the segment's equilibrium speed: displayed below, tolerated above)
+                        svf[f"vc.{l}.{k}"] = rng.choice([0.0, 10.0, 40.0, 90.0, 0.97 * veq_, veq_ / (1 + 0.5 * pvc.get(f"lp.{l}.alpha", 0.1))]) \
+                            if (k > 0 or len(vslset) == 1 or vi < 3) else math.inf
                     rf = steps(Runner(ctl, pvc), svf, backends)
                     for b_ in backends:
                         if isinstance(rp.get(b_), dict) and isinstance(rf.get(b_), dict):
@@ -2027,7 +2146,10 @@ def run_C12(ctx):
         # reference: a brand-new network object stepped once
         try:
             ref = Runner(net, pv).numpy_step(sv)
-        except Exception:
+        except Exception as ex:
+            fail(out, f"C12:{tk}:fresh-raise", net, pv, sv,
+                 f"a brand-new network of this description, stepped once with NumPy, raised {ex!r:.300} (case {ci} of this run: "
+                 f"other networks were stepped before in the same process)", case_index=ci)
             continue
         R = run.R
         for shape in ("vec1", "zerod"):
@@ -2156,6 +2278,38 @@ def run_C12(ctx):
                     break
         except Exception as ex:
             fail(out, f"C12:{tk}:params-array-raise", net, pv, sv, f"stepping with turn rates given as 0-d arrays raised {ex!r:.300}")
+        # compile, re-step every element (element-level, no re-initialisation), compile again: compiling in between
+        # changes nothing (the positive_init_* clamps of the variables are still in force)
+        try:
+            import casadi as cs
+            svn = nets.random_state(net, pv, rng, "negative")
+            if not dyn.near_excluded(net, pv, svn):
+                for sym in ("SX", "MX") if not quick or ci % 2 else ("SX",):
+                    o_ = {"pi_rho": True, "pi_v": True, "pi_w": True}
+                    outs = []
+                    for compile_between in (False, True):
+                        Rc = impl.Real(net, pv)
+                        eng = impl.CsEngine(sym)
+                        Rc.net.step(engine=eng, **nets.opts_kwargs(o_), **Rc.step_kwargs())
+                        if compile_between:
+                            eng.to_function(Rc.net, compact=ci % 3, more_out=bool(ci % 2), **Rc.step_kwargs())
+                        for el in Rc.net.origins:
+                            el.step(net=Rc.net, engine=eng, positive_next_queue=False, **Rc.step_kwargs())
+                        for (_, _, el) in Rc.net.links:
+                            el.step(net=Rc.net, engine=eng, positive_next_speed=False, positive_next_density=False, **Rc.step_kwargs())
+                        F = eng.to_function(Rc.net, compact=0, more_out=False, **Rc.step_kwargs())
+                        vals_, probs_ = Runner(net, pv).call(F, 0, False, svn)
+                        outs.append(vals_)
+                    out["coverage"]["evaluations"] += 1
+                    if outs[0] is not None and outs[1] is not None:
+                        badk = [k for k in keys if not same_float(outs[0][k], outs[1][k]) and not
+                                (math.isnan(outs[0][k]) and math.isnan(outs[1][k]))]
+                        if badk:
+                            fail(out, f"C12:{tk}:compile-between", net, pv, svn,
+                                 f"{sym}: step with the positive_init options, compile, re-step the elements, compile: {badk[0]} = "
+                                 f"{outs[1][badk[0]]!r}; without the compilation in between {outs[0][badk[0]]!r}", opts=o_)
+        except Exception as ex:
+            fail(out, f"C12:{tk}:compile-between-raise", net, pv, sv, f"compile / re-step / compile raised {ex!r:.300}")
         # all turn rates of a bifurcation exactly zero (the split is then 0/0 - not a number - but that is no licence
         # to rewrite the links' parameters)
         try:
